@@ -33,8 +33,9 @@
 (*   "L13rev"  operator genesis carries only the reverse lookup of the      *)
 (*             CURRENT key of each operator                                 *)
 (*   "NOHOOK"  the delegation keeper copy inside the precompiles has no     *)
-(*             hooks (app.go passes the keeper by value before SetHooks):   *)
+(*             hooks (app.go passed the keeper by value before SetHooks):   *)
 (*             undelegations through the gateway never reach dogfood        *)
+(*             (repaired by 103357a; kept as a selectable deviation)        *)
 (*   "VALKEYS" dogfood ExportGenesis writes, for every validator, the       *)
 (*             CURRENT consensus key of its operator (a replacement key     *)
 (*             that is not active yet) instead of the validator's key, and  *)
@@ -87,7 +88,7 @@ HookUndelegationStarted(st, o, r) ==
   LET place(e) == Ok([st EXCEPT !.matq = QAppend(@, e, r), !.mate = Put(@, r, e), !.hold = Put(@, r, Get(@, r, 0) + 1)])
   IN IF st.removing[o]
        THEN IF o \in DOMAIN st.optfin THEN place(st.optfin[o])
-            ELSE Fail(st)                                   \* finish epoch -1 -> nil store key -> panic (L3)
+            ELSE Ok(st)     \* opt-out completes at the end of this very block: not held (b16d110; was a nil-key panic, L3)
      ELSE IF st.key[o] = "" THEN Ok(st)
      ELSE IF st.key[o] \in st.vals \/ (st.prev[o] # "" /\ st.prev[o] \in st.vals) THEN place(st.ep + UNB)
      ELSE Ok(st)
@@ -113,10 +114,10 @@ SetKey(st, o, k) ==
            s1 == [st EXCEPT !.prev = IF found /\ ~already THEN [@ EXCEPT ![o] = old] ELSE @,
                             !.key  = [@ EXCEPT ![o] = k],
                             !.rev  = Put(@, k, o)]
-       IN IF found /\ ~already
-            THEN \* dogfood AfterOperatorKeyReplaced
-                 IF old \in st.vals THEN Ok([s1 EXCEPT !.pruneq = QAppend(@, st.ep + UNB, old)])
-                 ELSE Ok([s1 EXCEPT !.rev = Del(@, old)])
+       IN IF found
+            THEN \* dogfood AfterOperatorKeyReplaced, on EVERY replacement: the old key's reverse lookup is always kept
+                 \* until the unbonding epochs have passed (b16d110)
+                 Ok([s1 EXCEPT !.pruneq = QAppend(@, st.ep + UNB, old)])
           ELSE Ok(s1)
 
 NextKey(st, o) == IF st.nkey[o] <= Len(KEYSEQ[o]) THEN KEYSEQ[o][st.nkey[o]] ELSE ""
@@ -140,12 +141,11 @@ TxSetKey(st, o) ==
 \* MsgOptOutOfAVS: OptOut + InitiateOperatorKeyRemovalForChainID + dogfood AfterOperatorKeyRemovalInitiated
 TxOptOut(st, o) ==
   IF ~st.opted[o] THEN Fail(st)
-  ELSE IF st.key[o] = "" THEN Fail(st)                      \* nil key dereference -> panic -> reverted
+  ELSE IF st.key[o] = "" THEN Fail(st)                      \* unreachable: opt-in always sets a key
   ELSE LET s1 == [st EXCEPT !.opted = [@ EXCEPT ![o] = FALSE], !.usd = [@ EXCEPT ![o] = "none"],
                             !.removing = [@ EXCEPT ![o] = TRUE]]
-       IN IF st.key[o] \in st.vals
-            THEN Ok([s1 EXCEPT !.optq = QAppend(@, st.ep + UNB, o), !.optfin = Put(@, o, st.ep + UNB)])
-          ELSE Ok([s1 EXCEPT !.rev = Del(@, st.key[o])])     \* marker stays forever (L3)
+       IN \* the completion of the key removal is ALWAYS scheduled (b16d110)
+          Ok([s1 EXCEPT !.optq = QAppend(@, st.ep + UNB, o), !.optfin = Put(@, o, st.ep + UNB)])
 
 ApplyEv(st, ev) ==
   CASE ev.k = "undel"  -> TxUndel(st, ev.o, ev.path)
